@@ -121,6 +121,16 @@ func predsAt(r *Resolver, in ssa.Instruction) (pos, neg []Pred, other int) {
 		a := atomsOf(g)
 		p, ok := predOf(r, a.V)
 		if !ok {
+			// a nil test of a parameter (a defensive guard) is not a condition on the line
+			if b, isB := a.V.(*ssa.BinOp); isB && (isNilConst(b.X) || isNilConst(b.Y)) {
+				o := b.X
+				if isNilConst(b.X) {
+					o = b.Y
+				}
+				if _, isPrm := o.(*ssa.Parameter); isPrm {
+					continue
+				}
+			}
 			other++
 			continue
 		}
